@@ -25,7 +25,7 @@ META = {
                   "histories where a killed actor still issues a request in the round of its death are not judged.",
     "rule": "case = one scenario (capacities + per-actor scripts); non-trivial = distinct scenarios, fully checked, in which >=1 acquire had to wait "
             "or a timeout fired",
-    "ready": False,
+    "ready": True,
 }
 
 # minimal witnesses that are always run
